@@ -121,6 +121,32 @@ def _(ctx):
     return ('isnormal', ctx.args[0])
 
 
+@model('std::convert::From::from')
+def _(ctx):
+    """lossless numeric widening (f64::from(u32), f64::from(i32), u64::from(u32), T::from(T))"""
+    v = ctx.args[0]
+    targs = ctx.fn.get('args') or []
+    if isinstance(v, tuple) and len(targs) >= 2:
+        dst, src = targs[0].get('k'), targs[1].get('k')
+        if dst == 'float' and src in ('uint', 'int'):
+            return ('i2f', v)
+        if dst == src or (dst in ('uint', 'int') and src in ('uint', 'int')):
+            return v
+    return NotImplemented
+
+
+@model('std::borrow::Borrow::borrow', 'std::convert::AsRef::as_ref')
+def _(ctx):
+    """the blanket impls `Borrow<T> for T` and `Borrow<T> for &T`: a reference to the same value"""
+    r = ctx.args[0]
+    if not isinstance(r, Ref):
+        return NotImplemented
+    inner = ctx.interp.read(ctx.state, r.root, r.path)
+    if isinstance(inner, (Ref, SliceRef)):
+        return inner
+    return r
+
+
 @model('<f64>::classify')
 def _(ctx):
     x = scalar(ctx, ctx.args[0])
@@ -318,7 +344,7 @@ MODELS['std::cmp::PartialEq::ne'] = _enum_eq(True)
 def _(ctx):
     a, b = ctx.args
     if isinstance(a, tuple) and isinstance(b, tuple):
-        return ('imin', a, b)
+        return imin(a, b)
     return NotImplemented
 
 
@@ -351,7 +377,7 @@ def _(ctx):
 @model('<usize>::min')
 def _(ctx):
     a, b = ctx.args
-    return ('imin', a, b)
+    return imin(a, b)
 
 
 @model('std::clone::Clone::clone')
@@ -722,6 +748,20 @@ def _(ctx):
 
 
 # ---------------------------------------------------------------- streams
+def imin(a, b):
+    if a[0] == 'ic' and b[0] == 'ic':
+        return a if a[1] <= b[1] else b
+    if a == b:
+        return a
+    return ('imin', a, b)
+
+
+def idiv(a, b):
+    if a[0] == 'ic' and b[0] == 'ic' and b[1] > 0:
+        return iconst(a[1] // b[1])
+    return ('idiv', a, b)
+
+
 def isatsub(a, b):
     """saturating a − b on lengths; folded when both are literals or b is 0"""
     if a[0] == 'ic' and b[0] == 'ic':
@@ -746,7 +786,7 @@ def stream_len(it, st, s):
         nf = NF()
         if nf(a).equals(nf(b)):
             return a
-        return ('imin', a, b)
+        return imin(a, b)
     if k == 'lit':
         return iconst(len(s.parts))
     if k == 'chain':
@@ -763,7 +803,7 @@ def stream_len(it, st, s):
         return isatsub(slice_len(it, sl), it.isub(w, iconst(1)))
     if k == 'chunks':
         sl, w, exact = s.parts
-        return ('idiv', slice_len(it, sl), w)
+        return idiv(slice_len(it, sl), w)
     if k == 'scan':
         return stream_len(it, st, s.parts[0])
     if k == 'prefix':
@@ -924,7 +964,7 @@ def _stream_arg(ctx, v):
         t = ctx.interp.read(ctx.state, v.root, v.path)
         if isinstance(t, Stream):
             return t
-        if isinstance(t, Struct) and t.path.split('::')[-1] == 'Range':
+        if isinstance(t, Struct) and t.path.split('::')[-1] in ('Range', 'RangeFrom'):
             # `(a..b).all(..)`: the range itself is the iterator
             return to_stream(ctx, t)
     return to_stream(ctx, v)
@@ -952,6 +992,9 @@ def to_stream(ctx, v):
         return Stream('opaque', (('into_iter', v.term),))
     if isinstance(v, Struct) and v.path.split('::')[-1] == 'Range' and len(v.fields) == 2:
         return Stream('range', (v.fields[0], v.fields[1]))
+    if isinstance(v, Struct) and v.path.split('::')[-1] == 'RangeFrom' and len(v.fields) == 1:
+        # a.. : unbounded for every purpose here (it is always zipped with something finite)
+        return Stream('range', (v.fields[0], iconst(1 << 62)))
     if isinstance(v, Enum) and v.path == OPTION:
         raise Unsupported('Option as iterator')
     raise Unsupported('into_iter of %s' % type(v).__name__)
@@ -1122,12 +1165,11 @@ def _(ctx):
 @model('std::iter::Iterator::take_while')
 def _(ctx):
     """`s.take_while(p)` with a pure `p`: the prefix of s before the first element on which p fails
-    (a first-match search for ¬p; the whole of s when there is none)"""
+    (a first-match search for ¬p; the whole of s when there is none).  Over `rev()` the prefix is taken from the back:
+    the search is for the last element on which p fails."""
     it = ctx.interp
     s = _stream_arg(ctx, ctx.args[0])
     base, rev = _search_base(ctx, s)
-    if rev:
-        raise Unsupported('take_while over a reversed stream')
     st0 = ctx.state
     ivar = it.fresh_sym('ι')
     n = stream_len(it, st0, base)
@@ -1144,10 +1186,14 @@ def _(ctx):
     P = mk_not(r)
     sterm = it.abstract(st0, base)
     found = ('found', sterm, ivar, P)
-    idx = ('firstidx', sterm, ivar, P)
+    idx = ('lastidx' if rev else 'firstidx', sterm, ivar, P)
     it.events.append({'kind': 'search', 'op': 'take_while', 'fn': ctx.frame.f['path'] if ctx.frame else None,
-                      'line': ctx.line, 'stream': s, 'base': base, 'rev': False, 'ivar': ivar, 'pred': P,
+                      'line': ctx.line, 'stream': s, 'base': base, 'rev': rev, 'ivar': ivar, 'pred': P,
                       'idx': idx, 'found': found})
+    if rev:
+        # elements taken from the back: those after the last failing one
+        taken = mk_sel(found, it.isub(it.isub(n, iconst(1)), idx), n)
+        return Stream('prefix', (s, taken))
     return Stream('prefix', (base, mk_sel(found, idx, n)))
 
 
@@ -2065,7 +2111,20 @@ def _close_lockstep_loop(it, frame, summ):
     if not (1 <= len(cursors) <= 2):
         return '%d cursors' % len(cursors)
     csyms = [c for c, _ in cursors]
-    lits = [(l[0], l[1]) for l in bs.guard]
+    lits = []
+    stack = [(l[0], l[1]) for l in reversed(bs.guard)]
+    while stack:
+        q, pol = stack.pop()
+        is_range = not any(t[0] == 'elem' for t in subterms(q))
+        if is_range and pol and q[0] == 'and':
+            # `a.zip(b)` has one emptiness test for both sides
+            stack.append((q[2], True))
+            stack.append((q[1], True))
+        elif is_range and not pol and q[0] == 'or':
+            stack.append((q[2], False))
+            stack.append((q[1], False))
+        else:
+            lits.append((q, pol))
     tests = [(q, pol) for q, pol in lits if any(t[0] == 'elem' for t in subterms(q))]
     ranges = [(q, pol) for q, pol in lits if (q, pol) not in tests]
     if len(tests) != 1 or len(ranges) != len(cursors):
@@ -2125,15 +2184,23 @@ def _close_lockstep_loop(it, frame, summ):
         for s_ in ss:
             for newg, newf, mp, asg in cases:
                 bm = {}
+                asm = {}
                 for a_, v_ in asg.items():
                     bm[a_] = TRUE if v_ else FALSE
                     bm[mk_not(a_)] = FALSE if v_ else TRUE
+                    asm[a_] = v_
+                    asm[mk_not(a_)] = not v_
                 # is this exit taken in this case?  its own decisions must agree with the case
                 feasible = True
                 keep = []
+                from .terms import simp as _simp
                 for l_ in s_.guard:
                     g_ = _lit(l_[0], l_[1])
                     v_ = bm.get(g_)
+                    if v_ is None:
+                        v_ = _simp(subst_term(g_, bm), asm)
+                        if v_ not in (TRUE, FALSE):
+                            v_ = None
                     if v_ == FALSE:
                         feasible = False
                         break
@@ -2158,3 +2225,103 @@ def _close_lockstep_loop(it, frame, summ):
                       'ivar': k, 'pred': Pk, 'idx': idx, 'found': found, 'from_loop': True})
     summ.recognised = 'SEARCH-LOOP (lockstep)'
     return out
+
+
+def close_build_loop_generic(it, frame, summ):
+    """BUILD-TRAVERSAL for any iterator pipeline (zip, enumerate, skip, rev, … of slices and ranges): a loop that drains one
+    stream, unconditionally, pushing exactly one element per iteration onto a vector (and carrying scalars at most) is the
+    map — with carried scalars, the scan — of its body over that stream."""
+    from .terms import subst_term, subterms
+    seqs = [(r, p, fv, iv) for r, p, fv, iv in summ.carried if isinstance(fv, SeqSym)]
+    streams = [(r, p, fv, iv) for r, p, fv, iv in summ.carried if isinstance(fv, Stream)]
+    scal = [(r, p, fv, iv) for r, p, fv, iv in summ.carried if isinstance(fv, tuple) and fv and fv[0] == 'sym']
+    if len(seqs) != 1 or len(streams) != 1 or len(seqs) + len(streams) + len(scal) != len(summ.carried) or len(summ.back_states) != 1:
+        return None
+    (qr, qp, qf, q0), (ir, ip, if_, i0) = seqs[0], streams[0]
+    if not isinstance(i0, Stream):
+        return None
+    cur = []
+    if not _stream_cursors(i0, if_, cur) or not cur:
+        return None
+    bs = summ.back_states[0]
+    try:
+        ne = stream_nonempty(it, summ.head_state, if_)
+        if [_lit(l[0], l[1]) for l in bs.guard] != [ne]:
+            return None
+        ib = it.read(bs, ir, ip)
+        tail = stream_tail(it, bs, if_)
+        qb = it.read(bs, qr, qp)
+    except Unsupported:
+        return None
+    if it.abstract(bs, ib) != it.abstract(bs, tail):
+        return None
+    if not (isinstance(qb, SeqPush) and qb.seq == qf):
+        return None
+    adv = []
+    if not _stream_cursors(if_, tail, adv):
+        return None
+    step = {}
+    for before, after in adv:
+        if after == it.iadd(before, iconst(1)):
+            step[before] = 1
+        elif after == it.isub(before, iconst(1)):
+            step[before] = -1
+        else:
+            return None
+    iota = it.fresh_sym('ι')
+    mapping = {}
+    for orig, head in cur:
+        if head not in step:
+            return None
+        mapping[head] = it.iadd(orig, iota) if step[head] == 1 else it.isub(orig, iota)
+    exits = [(t, s_) for t, ss in summ.exit_states.items() for s_ in ss]
+    if len(exits) != 1:
+        return None
+    et, es = exits[0]
+    if [_lit(l[0], l[1]) for l in es.guard] != [mk_not(ne)]:
+        return None
+    try:
+        if it.read(es, qr, qp) != qf:
+            return None
+        for r, p, fv, iv in scal:
+            if it.read(es, r, p) != fv:
+                return None
+    except Unsupported:
+        return None
+    val = qb.val
+    absv = it.abstract(bs, val)
+    if any(x == ('seq', qf.name) for x in subterms(absv)):
+        return None
+    st0 = summ.entry_state
+    n = stream_len(it, st0, i0)
+
+    def remap(v):
+        return recanon_value(it, it.subst_value(v, mapping))
+    if not scal:
+        body = SeqMap(i0, iota, remap(val), 'loop', n)
+    else:
+        nxt = []
+        for r, p, fv, iv in scal:
+            try:
+                nxt.append(remap(it.read(bs, r, p)))
+            except Unsupported:
+                return None
+        body = SeqScan(i0, iota, tuple(((r, p), fv) for r, p, fv, iv in scal), tuple(iv for r, p, fv, iv in scal),
+                       tuple(nxt), remap(val), None, n)
+    value = body if (isinstance(q0, SeqLit) and not q0.elems) else SeqConcat((q0, body))
+    summ.recognised = 'BUILD-TRAVERSAL'
+    it.events.append({'kind': 'scan' if scal else 'collect', 'fn': frame.f['path'], 'line': summ.line, 'seq': body, 'stream': i0, 'from_loop': True})
+    return {'exit': et, 'root': qr, 'path': qp, 'value': value}
+
+
+def recanon_value(it, v):
+    """recanon over a value (terms inside structs / tuples / arrays / refs' index paths)"""
+    if isinstance(v, tuple):
+        return recanon(it, v)
+    if isinstance(v, Struct):
+        return Struct(v.path, tuple(recanon_value(it, x) for x in v.fields), v.tyargs)
+    if isinstance(v, Tup):
+        return Tup(tuple(recanon_value(it, x) for x in v.fields))
+    if isinstance(v, Arr):
+        return Arr(tuple(recanon_value(it, x) for x in v.elems))
+    return v
